@@ -26,7 +26,7 @@ class FileDomain(EvDomain):
         q = strip_targs(n.d.get('calleeq') or n.d.get('ctor') or '')
         if q.startswith('tulz::Path::') or q.startswith('tulz::Exception') or q.startswith('tulz::Array'): return True
         if q.startswith('tulz::File::') and q.split('::')[-1] in ('seek', 'tell', 'size', 'read', 'isOpen', 'close') and q not in self.inline: return True
-        if n.k == 'call' and n.ck == 'op' and n.op == '()' and n.callee_in_root and self.switch_lambda(n): return True
+        if n.k == 'call' and n.callee_in_root and self.switch_lambda(n): return True          # the mode table (a switch) is decided separately (FI.1)
         return super().opaque(n)
 
     def switch_lambda(self, n):
@@ -90,6 +90,16 @@ def run(facts, rep, tier):
     if sw is None:
         switches = [x for x in opn.nodes() if x.k == 'switch']
         if switches: sw = (None, opn)
+    # the same two pieces as free / member helper functions called from open()
+    helpers = []
+    for n in opn.nodes():
+        if n.k == 'call' and n.callee_in_root:
+            for t in facts.resolve(n):
+                if t.file.endswith('File.cpp') and t not in helpers and any(p_['ctype'].endswith('Mode') for p_ in t.d['params']): helpers.append(t)
+    wm_fn = None
+    for t in helpers:
+        if sw is None and any(x.k == 'switch' for x in t.nodes()): sw = (None, t)
+        elif wm is None and (t.d.get('ret') or '') == 'bool' and not any(x.k == 'switch' for x in t.nodes()): wm_fn = t
     if sw is None: rep.anchor_missing('mode switch', 'no switch over the mode in open()')
     else:
         table = {}
@@ -120,7 +130,14 @@ def run(facts, rep, tier):
             rep.check(table.get(m) == MODE_STR[m], 'FI.1', f'Mode::{m} -> "{MODE_STR[m]}"', swn.shortloc(), f'Mode::{m} opens the stream with mode string {table.get(m)!r}: ' +
                       ('append would truncate / write would not' if m in WRITE_MODES else 'wrong access mode'), key=f'FI.1|modestr|{m}', fn=opn.name)
         rep.check('None' in throws and '<default>' in throws, 'FI.1', 'Mode::None and unknown values throw', swn.shortloc(), f'throwing labels: {sorted(map(str, throws))}', key='FI.1|throws', fn=opn.name)
-    if wm is None: rep.anchor_missing('isWriteMode', 'write-mode predicate not found in open()')
+    if wm is None and wm_fn is not None:
+        for m in MODES:
+            dom = FileDomain(dict(mode=m))
+            ex = Exec(facts, dom)
+            vals = {P.ret if isinstance(P.ret, bool) else repr(P.ret) for P in ex.run(wm_fn, args=[Enum('tulz::File::Mode::' + m)])}
+            want = m in WRITE_MODES
+            rep.check(vals == {want}, 'FI.1', f'{wm_fn.name.split("::")[-1]}(Mode::{m}) = {sorted(map(str, vals))}', wm_fn.shortloc(), f'expected {want}: opening a missing file in this mode ' + ('fails with NotFound although the mode creates files' if want else 'silently proceeds'), key=f'FI.1|iswrite|{m}', fn=opn.name)
+    elif wm is None: rep.anchor_missing('isWriteMode', 'write-mode predicate not found in open()')
     else:
         for m in MODES:
             dom = FileDomain(dict(mode=m))
